@@ -424,6 +424,7 @@ type TrafficCfg struct {
 	Meta       bool
 	Kills      bool
 	SetupRegs  bool // every callee registers its procedures first and waits for the ack
+	Stalls     bool // stall/resume ops only (slow readers that stay attached)
 }
 
 var trafficTopics = []wamp.URI{"t.a", "t.b", "t.a.x"}
@@ -457,6 +458,9 @@ func GenTraffic(g *Rand, tc TrafficCfg) []TOp {
 			}
 			if tc.Meta {
 				w[tMeta] = 2
+			}
+			if tc.Stalls {
+				w[tStall], w[tResume], w[tSleep] = 1, 2, 2
 			}
 			op.Kind = g.Weighted(w...)
 			switch op.Kind {
